@@ -231,7 +231,7 @@ func stopScenarios(hist string, full bool) []e1.Scenario {
 					sc.Attempts = []e1.Attempt{a}
 					out = append(out, sc)
 				}
-				if name == "badtablemap" || strings.HasPrefix(name, "unknownid") {
+				if name == "badtablemap" || strings.HasPrefix(name, "unknownid") || name == "rowsquery" || name == "intvar" || name == "rand" {
 					// ... and with the master ending the stream cleanly afterwards: an
 					// event the parser silently skipped must not turn into a clean end
 					sc := base(fmt.Sprintf("%s/%s/inject-%s@%d/eof", hist, pacing, name, at), hist, pacing)
